@@ -43,12 +43,20 @@ FieldTy(t) ==
     [] t = "str" -> TStr
 
 Skipped(fld) == fld.attr = "skip"
-\* the representation a non-skipped field is encoded in
-Repr(fld) == IF fld.attr \in {"compact", "encoded_as"} THEN TCompact(IntWidth(fld.ty)) ELSE FieldTy(fld.ty)
+\* the representation a non-skipped field is encoded in ("encoded_as_wide": encoded_as naming a type that is not the
+\* field's compact representation - here the integer widened to eight bytes)
+Repr(fld) == CASE fld.attr \in {"compact", "encoded_as"} -> TCompact(IntWidth(fld.ty))
+               [] fld.attr = "encoded_as_wide" -> TInt(8, FALSE)
+               [] OTHER -> FieldTy(fld.ty)
+\* what the generated encoder writes for a field: the multi-field path has one arm for compact and one for encoded_as
+\* (EncMode = "merged_arms": both written through the compact representation, as one seeded change did)
+ImplEncRepr(emode, fld) ==
+  IF emode = "merged_arms" /\ fld.attr \in {"encoded_as", "encoded_as_wide"} THEN TCompact(IntWidth(fld.ty)) ELSE Repr(fld)
+EncArmsSound(emode, fld) == ImplEncRepr(emode, fld) = Repr(fld)
 Encoded(fs) == LET keep == SelectSeq(fs, LAMBDA x : ~Skipped(x)) IN [i \in 1..Len(keep) |-> Repr(keep[i])]
 
-AttrOK(fld) == /\ fld.attr \in {"none", "skip", "compact", "encoded_as"}        \* at most one of them (anything else is a conflict)
-               /\ fld.attr \in {"compact", "encoded_as"} => IsIntTy(fld.ty)
+AttrOK(fld) == /\ fld.attr \in {"none", "skip", "compact", "encoded_as", "encoded_as_wide"}        \* at most one of them (anything else is a conflict)
+               /\ fld.attr \in {"compact", "encoded_as", "encoded_as_wide"} => IsIntTy(fld.ty)
 FieldsOK(fs) == \A i \in 1..Len(fs) : AttrOK(fs[i])
 
 NonSkipped(def) == { k \in 1..Len(def.vs) : ~def.vs[k].skip }
